@@ -214,6 +214,8 @@ def check(rep, F, tier, replay=None):
             rep.violation("SIB-refsize", "MintBuilder|%s" % ",".join(sorted(vb - va)), "MintBuilder::get_ref_inputs puts the reference input of a %s mint script into the body, but get_script_ref_inputs_with_size does not report its size: the reference-script fee for that script is missing from min_fee" % "/".join(sorted(vb - va)), {})
     else:
         rep.lost("MintBuilder reference-input functions not found")
+    from ruleutil import boot_attr_rule
+    boot_attr_rule(rep, F)
     return rep.finish(
         EXPLANATION,
         ["fees::min_fee / min_script_fee / min_ref_script_fee compute the ledger formulas (C15)", "fake witnesses have the byte size of real ones (fakes.rs constants)", "the signer union being complete per source is C18's matrix"],
